@@ -709,11 +709,11 @@ fn rec_90(c: &str) -> V {
 fn xs(n: usize) -> String { "ABCDEFGHIJKLMNOPQRSTUVWXYZ0123456789ABCDEFGHIJKLMNOPQRSTUVWXYZ0123456789".chars().cycle().take(n).collect() }
 fn i(class: &'static str, t: impl Into<String>) -> (&'static str, String) { (class, t.into()) }
 
-fn in_11x() -> Vec<(&'static str, String)> { vec![i("typ", "103240719"), i("max", "1032407191234567890"), i("opt", "2022402291234")] }
-fn in_11() -> Vec<(&'static str, String)> { vec![i("typ", "196240719"), i("min", "103000101")] }
+fn in_11x() -> Vec<(&'static str, String)> { vec![i("typ", "103240719"), i("max", "1032407191234567890"), i("opt", "2022402291234"), i("y50", "103500101"), i("y68", "103681231")] }
+fn in_11() -> Vec<(&'static str, String)> { vec![i("typ", "196240719"), i("min", "103000101"), i("y50", "103500101"), i("y69", "103690101")] }
 fn in_12() -> Vec<(&'static str, String)> { vec![i("typ", "940"), i("alt", "942")] }
 fn in_13c() -> Vec<(&'static str, String)> { vec![i("typ", "/SNDTIME/1230+0100"), i("min", "/CLSTIME/0000-0000"), i("max", "/RNCTIME/2359+1459")] }
-fn in_13d() -> Vec<(&'static str, String)> { vec![i("typ", "2407191230+0100"), i("min", "0001010000-0000"), i("max", "4912312359+1459"), i("old", "9912311200+0530")] }
+fn in_13d() -> Vec<(&'static str, String)> { vec![i("typ", "2407191230+0100"), i("min", "0001010000-0000"), i("max", "4912312359+1459"), i("old", "9912311200+0530"), i("y50", "5001010000+0000"), i("y68", "6812312359-1200"), i("y69", "6901010000+0000")] }
 fn in_19() -> Vec<(&'static str, String)> { vec![i("typ", "123456,78"), i("min", "0,01"), i("max", "99999999999999,99")] }
 fn in_ref16() -> Vec<(&'static str, String)> { vec![i("typ", "REF20240719001"), i("min", "A"), i("max", xs(16)), i("punct", "A/B-C?:().,'+ D")] }
 fn in_ref35() -> Vec<(&'static str, String)> { vec![i("typ", "CUSTREF-2024-0719"), i("min", "A"), i("max", xs(35))] }
@@ -728,7 +728,7 @@ fn in_28() -> Vec<(&'static str, String)> { vec![i("typ", "12345/01"), i("min", 
 fn in_28c() -> Vec<(&'static str, String)> { vec![i("typ", "12345/123"), i("min", "1"), i("max", "99999/99999")] }
 fn in_28d() -> Vec<(&'static str, String)> { vec![i("typ", "001/010"), i("min", "001/001"), i("max", "99999/99999")] }
 fn in_30() -> Vec<(&'static str, String)> { vec![i("typ", "240719"), i("leap", "240229"), i("min", "000101"), i("max", "491231"), i("old", "991231"), i("pivot", "500101")] }
-fn in_32dca() -> Vec<(&'static str, String)> { vec![i("typ", "240719USD1000,50"), i("min", "000101EUR0,01"), i("max", "491231GBP9999999999,99"), i("jpy", "240719JPY1500000"), i("bhd", "240719BHD123,456"), i("clf", "991231CLF10,1234")] }
+fn in_32dca() -> Vec<(&'static str, String)> { vec![i("typ", "240719USD1000,50"), i("min", "000101EUR0,01"), i("max", "491231GBP9999999999,99"), i("jpy", "240719JPY1500000"), i("bhd", "240719BHD123,456"), i("clf", "991231CLF10,1234"), i("y50", "500101USD1,00"), i("y68", "681231USD1,00")] }
 fn in_ccyamt() -> Vec<(&'static str, String)> { vec![i("typ", "EUR500,00"), i("min", "USD0,01"), i("max", "GBP9999999999,99"), i("jpy", "JPY125000"), i("kwd", "KWD1,500")] }
 fn in_34f() -> Vec<(&'static str, String)> { vec![i("typ", "USD5000,00"), i("ind-d", "USDD2500,00"), i("ind-c", "EURC0,01"), i("max", "GBP999999999999,99")] }
 fn in_36() -> Vec<(&'static str, String)> { vec![i("typ", "1,25"), i("min", "0,0001"), i("max", "99999,99999"), i("alt", "0,9375")] }
@@ -748,7 +748,7 @@ fn in_opt_d() -> Vec<(&'static str, String)> { vec![i("typ", "/12345678\nBANK OF
 fn in_59() -> Vec<(&'static str, String)> { vec![i("typ", "/GB82WEST12345698765432\nJOHN SMITH\n456 RESIDENTIAL AVENUE"), i("noacct", "JOHN SMITH"), i("min", "A"), i("max", format!("/{}\n{}\n{}\n{}\n{}", xs(34), xs(35), xs(35), xs(35), xs(35)))] }
 fn in_59a() -> Vec<(&'static str, String)> { vec![i("typ", "/GB82WEST12345698765432\nDEUTDEFF"), i("noacct", "CHASUS33XXX"), i("max", format!("/{}\nDEUTDEFF500", xs(34)))] }
 fn in_59f() -> Vec<(&'static str, String)> { vec![i("typ", "1/JOHN SMITH\n2/456 RESIDENTIAL AVENUE\n3/GB/LONDON"), i("party", "/12345678\n1/JOHN SMITH"), i("min", "1/A"), i("max", format!("/{}\n1/{}\n2/{}\n3/{}\n4/{}", xs(34), xs(33), xs(33), xs(33), xs(33)))] }
-fn in_balance() -> Vec<(&'static str, String)> { vec![i("typ", "C231225USD1234,56"), i("debit", "D240229EUR0,00"), i("max", "C491231GBP999999999999,99"), i("old", "D991231CHF10,50")] }
+fn in_balance() -> Vec<(&'static str, String)> { vec![i("typ", "C231225USD1234,56"), i("debit", "D240229EUR0,00"), i("max", "C491231GBP999999999999,99"), i("old", "D991231CHF10,50"), i("y50", "C500101USD1,00"), i("y68", "C681231USD1,00")] }
 fn in_61() -> Vec<(&'static str, String)> { vec![
     i("typ", "231225D1234,56NTRFREF123456"),
     i("entry", "2312251226C100,00NMSCCUSTREF//BANKREF"),
